@@ -59,6 +59,13 @@ type walker struct {
 	changed bool
 }
 
+func (w *walker) doStmt(s ast.Stmt, st State) State {
+	if w.h.Stmt == nil {
+		return st
+	}
+	return w.h.Stmt(s, st)
+}
+
 func (w *walker) join(a, b State) State {
 	if a == nil {
 		return b
@@ -172,7 +179,7 @@ func (w *walker) stmt(s ast.Stmt, st State, label string) State {
 		if st == nil {
 			return nil
 		}
-		st = w.h.Stmt(s, st)
+		st = w.doStmt(s, st)
 		if call, ok := ast.Unparen(s.X).(*ast.CallExpr); ok && isNoReturnCall(w.h.Info, call) {
 			return nil
 		}
@@ -187,32 +194,32 @@ func (w *walker) stmt(s ast.Stmt, st State, label string) State {
 		if st == nil {
 			return nil
 		}
-		return w.h.Stmt(s, st)
+		return w.doStmt(s, st)
 	case *ast.IncDecStmt:
 		st = w.evalLHS(s.X, st)
 		if st == nil {
 			return nil
 		}
-		return w.h.Stmt(s, st)
+		return w.doStmt(s, st)
 	case *ast.SendStmt:
 		st = w.eval(s.Chan, st)
 		st = w.eval(s.Value, st)
 		if st == nil {
 			return nil
 		}
-		return w.h.Stmt(s, st)
+		return w.doStmt(s, st)
 	case *ast.GoStmt:
 		st = w.evalCallOperands(s.Call, st)
 		if st == nil {
 			return nil
 		}
-		return w.h.Stmt(s, st)
+		return w.doStmt(s, st)
 	case *ast.DeferStmt:
 		st = w.evalCallOperands(s.Call, st)
 		if st == nil {
 			return nil
 		}
-		return w.h.Stmt(s, st)
+		return w.doStmt(s, st)
 	case *ast.DeclStmt:
 		if gd, ok := s.Decl.(*ast.GenDecl); ok && gd.Tok == token.VAR {
 			for _, sp := range gd.Specs {
@@ -226,7 +233,7 @@ func (w *walker) stmt(s ast.Stmt, st State, label string) State {
 		if st == nil {
 			return nil
 		}
-		return w.h.Stmt(s, st)
+		return w.doStmt(s, st)
 	case *ast.ReturnStmt:
 		for _, r := range s.Results {
 			st = w.eval(r, st)
